@@ -32,6 +32,7 @@ type PField struct {
 	Msg    string `json:"mt"`     // message type name (kind message)
 	KKind  string `json:"kkind"`  // map key kind
 	JB     B      `json:"jb"`     // JSON name as bytes
+	NB     B      `json:"nb"`     // name as bytes
 }
 type PSchema struct {
 	Msgs map[string][]PField `json:"msgs"`
@@ -120,6 +121,7 @@ func newPbEnv(s PSchema) (*pbEnv, error) {
 				fs[i].JSON = defaultJSONName(fs[i].Name)
 			}
 			fs[i].JB = B(fs[i].JSON)
+			fs[i].NB = B(fs[i].Name)
 		}
 		s.Msgs[n] = fs
 	}
